@@ -448,15 +448,15 @@ pub mod verif_hooks {
             Queue(self.0.replace(new_array.0))
         }
     }
-    /// Assemble a `BlockPool` from queues the harness filled through the real `push_relaxed`: `local[i]` becomes
-    /// worker `i`'s local queue, `global` the flushed list, `count` the number of blocks they hold. Construction only;
-    /// lets a harness start from a pool state (e.g. a full local queue) without replaying the pushes that lead to it.
-    pub fn pool_from_parts<B: Region>(local: Vec<Queue<B>>, global: Vec<Queue<B>>) -> BlockPool<B> {
-        let count = local.iter().chain(global.iter()).map(|q| q.len()).sum();
+    /// A one-worker `BlockPool` whose local queue is `local` (filled by the harness through the real `push_relaxed`) and
+    /// whose count is the number of blocks it holds. Construction only; lets a harness start from a pool state (e.g. a
+    /// full local queue) without replaying the `BlockPool::push` calls that lead to it.
+    pub fn pool_with_local_queue<B: Region>(local: Queue<B>) -> BlockPool<B> {
+        let count = local.len();
         BlockPool {
             head_global_freed_blocks: RwLock::new(None),
-            global_freed_blocks: RwLock::new(global.into_iter().map(|q| q.0).collect()),
-            worker_local_freed_blocks: local.into_iter().map(|q| q.0).collect(),
+            global_freed_blocks: RwLock::new(vec![]),
+            worker_local_freed_blocks: vec![local.0],
             count: AtomicUsize::new(count),
         }
     }
